@@ -386,9 +386,34 @@ func (r *run) c20describe(budget int) {
 		}
 		r.classes["describe-dead-port"]++
 	}
-	for i := 0; i < budget && hung < 3 && leaks < 6; i++ {
+	// directed: the server answers twice, back to back, with responses that differ only in the content
+	// of a block the library keeps verbatim; what the call returns is the first response, and it still is
+	// the first response after the receiver has read the second datagram (into the same buffer)
+	var directed [][]arrival
+	for k := 0; k < 4; k++ {
+		a := r.g.DescrResFrameWithUnknown()
+		blk := []byte{12, byte(r.g.Pick(0xfe, 0x03, 0x04, 0x05))}
+		for j := 0; j < 10; j++ {
+			blk = append(blk, byte(0x11*(k+1)+j))
+		}
+		a = append(a, blk...)
+		a[4], a[5] = byte(len(a)>>8), byte(len(a))
+		b := append([]byte(nil), a...)
+		for j := len(b) - 10; j < len(b); j++ {
+			b[j] ^= 0xff
+		}
+		if len(a) <= 1000 {
+			at := r.g.Pick(0, 3, 10)
+			directed = append(directed, []arrival{{at, false, a}, {at, false, b}})
+		}
+	}
+	for i := 0; i < budget+len(directed) && hung < 3 && leaks < 6; i++ {
 		timeout := r.g.Pick(1, 2, 5, 20, 50, 100, 150, 200, 300, 500)
 		s := r.script(timeout, r.descrRes, r.searchRes)
+		if i < len(directed) {
+			timeout, s = 300, directed[i]
+			r.classes["describe-answered-twice"]++
+		}
 		op := fmt.Sprintf("desc %d %s", timeout, scriptText(s))
 		inflight(op)
 		var o descOutcome
